@@ -25,7 +25,7 @@ def status_consts(facts):
                 out[nm.rsplit("::", 1)[1]] = int(op["int"])
 
     for body in facts.bodies.values():
-        if not body.id.startswith("nomt::overlay::"):
+        if "nomt::overlay::" not in body.id:
             continue
         for b in range(body.n):
             for s in body.stmts(b):
@@ -257,11 +257,11 @@ def p2(facts, rep):
             short = body.id.split("::", 1)[1]
             n += 1
             if m == "store":
-                ok = body.id.startswith(STATUS + "::") and t["args"][1].get("k") == "const" and int(t["args"][1].get("int", -1)) == consts.get("COMMITTED")
+                ok = body.origin(b).startswith(STATUS + "::") and t["args"][1].get("k") == "const" and int(t["args"][1].get("int", -1)) == consts.get("COMMITTED")
                 rep.check(ok, "P2", short, "store", "the overlay status word is stored outside the methods of OverlayStatus, or with a value other than COMMITTED", site=t.get("ln"), detail="a method of OverlayStatus stores COMMITTED")
             elif m == "compare_exchange":
                 a = [x.get("int") for x in t["args"][1:3]]
-                ok = body.id.startswith(STATUS + "::") and a[0] is not None and a[1] is not None and int(a[0]) == consts.get("LIVE") and int(a[1]) == consts.get("DROPPED")
+                ok = body.origin(b).startswith(STATUS + "::") and a[0] is not None and a[1] is not None and int(a[0]) == consts.get("LIVE") and int(a[1]) == consts.get("DROPPED")
                 rep.check(ok, "P2", short, "compare_exchange", "the overlay status word is changed by a compare_exchange other than LIVE -> DROPPED inside a method of OverlayStatus: a committed overlay could be un-committed, or a dropped one revived", site=t.get("ln"), detail="a method of OverlayStatus: LIVE -> DROPPED only")
             else:
                 rep.violation("P2", short, m, "the overlay status word is modified with `%s` outside the listed transitions (commit: -> COMMITTED, drop: LIVE -> DROPPED)" % m, site=t.get("ln"))
